@@ -32,8 +32,21 @@ Proof. exact c15_nodup. Qed.
 Theorem C15_first_index : FIRST_INDEX = -123.
 Proof. reflexivity. Qed.
 
+From Coq Require Import String.
+From Peppi Require Import Gen.RollbacksSrc Proofs.RollbacksLayout.
+(* ---- Frame::rollbacks / rollbacks_ regenerated from src/frame/immutable/mod.rs (Gen/RollbacksSrc.v): the iteration order per
+   variant, the initial values, the size of `seen`, the zero-based id, the loop body as a decision table; the hand model IS the
+   interpreter that writes result[idx] / seen[z] by index in the table's order -- for ALL id lists, panics included *)
+Theorem C15_rollbacks_from_source : forall k ids, rollbacks k ids = rollbacks_tbl (keep_name k) ids.
+Proof. exact rollbacks_from_source. Qed.
+Theorem C15_variants_from_source :
+  rollbacks_variants = map keep_name [ExceptFirst; ExceptLast] /\ map fst rollbacks_order = rollbacks_variants.
+Proof. exact rollbacks_variants_from_source. Qed.
+
 Print Assumptions C15_first.
 Print Assumptions C15_last.
 Print Assumptions C15_unmarked_first.
 Print Assumptions C15_nodup.
 Print Assumptions C15_first_index.
+Print Assumptions C15_rollbacks_from_source.
+Print Assumptions C15_variants_from_source.
